@@ -477,6 +477,9 @@ pub fn scripts() -> Vec<(&'static str, Vec<String>)> {
         ("blank-lines", v(&["", "go infinite", "   ", "stop", "isready"])),
         // a time-limited go on a position whose whole tree is exhausted long before the limit:
         // it is answered when the depth runs out, and the next go is accepted
+        // the GUI does not wait for the bestmove after stop: the next go arrives while the stopped
+        // search may not even have noticed the stop yet
+        ("stop-go!-at-once", v(&["go infinite", "stop", "go! depth 1", "isready"])),
         ("tiny-tree-movetime", v(&["position fen 7k/8/5K2/6Q1/8/8/8/8 w - - 0 1", "go movetime 600000", "go depth 1", "isready"])),
     ]
 }
